@@ -1480,6 +1480,21 @@ def _ops_of(g):
     return out  # outermost first
 
 
+def _nobox_doc():
+    """A document without a view box (only a width): objectBoundingBox gradients used as fill, as stroke paint only and by a shape
+    that merely sits in defs; a stroked shape (the first one to need the tolerance), a shape with fill and stroke, an instance."""
+    def grad(tag, gid):
+        return El(tag, {"id": gid}, [El("stop", {"offset": "0", "stop-color": "red"}), El("stop", {"offset": "1", "stop-color": "blue"})])
+
+    def box(i):
+        return pd(("M", (i, i)), ("L", (i + 4, i)), ("L", (i + 4, i + 4)), ("Z", ()))
+    defs = El("defs", {}, [grad("linearGradient", "h"), grad("radialGradient", "k"), grad("linearGradient", "m"), El("path", {"id": "spare", "d": box(80), "fill": "url(#m)"})], name="defs")
+    kids = [defs, El("path", {"id": "a", "d": box(1), "fill": "url(#h)"}), El("path", {"id": "b", "d": box(10), "fill": "url(#h)", "stroke": "black"}),
+            El("path", {"id": "c", "d": box(20), "fill": "none", "stroke": "url(#k)", "stroke-width": "3"}), El("use", {XLINK_HREF: "#a"}),
+            El("path", {"id": "d", "d": box(30), "fill": "none", "stroke": "black", "stroke-width": "2"})]
+    return El("svg", {"width": "100"}, kids, name="root")
+
+
 def check_pipeline(repo: Repo, rep: Report, rules: Dict[str, str]):
     """topicosvg interpreted end to end on a schematic document that uses every supported feature.
     rules: category -> rule id; categories: grammar, path-data, rounding, paint, junk, kept-group, orphans, fixpoint, completes"""
@@ -1497,6 +1512,22 @@ def check_pipeline(repo: Repo, rep: Report, rules: Dict[str, str]):
         elif len(snaps) >= 2 and snaps[-1] != snaps[-2]:
             for dmsg in _struct_diffs(snaps[-2], snaps[-1]):
                 probs["fixpoint"].append("a second conversion changes the document: " + dmsg)
+    # a document without a view box: what is judged is that it ends, and how references look at the end
+    outs, _ = run_pipeline(repo, ndigits=3, passes=1, doc=_nobox_doc)
+    for o in outs:
+        n_runs += 1
+        if o.raised:
+            # (nothing in it needs a viewport: no transformed shape has a gradient)
+            probs["completes"].append(f"document without viewBox: conversion raises {o.raised} ({o.raise_msg})")
+            continue
+
+        def PN(cat, msg):
+            msg = "document without viewBox: " + msg
+            if "stays in defs although no shape references it" in msg:
+                probs["orphans"].append(msg)
+            elif cat == "refs":
+                probs["grammar"].append(msg)
+        _grammar_facts(o.args[0].f["svg_root"], PN)
     for nd in (3, 0):
         outs, _ = run_pipeline(repo, ndigits=nd, passes=1)
         for o in outs:
